@@ -9,3 +9,10 @@ MUTANTS = [
     {'name': 'validator accepts an undispatched mode', 'file': 'partitura/score.py', 'old': '    if reassign not in ["staff", "voice", "auto"]:', 'new': '    if reassign not in ["staff", "voice", "auto", "both"]:', 'expect': 'F6-modes'}]
 
 NEUTRALS = [{'name': 'voice offset with augmented assignment', 'file': 'partitura/score.py', 'old': '                        e.voice = e.voice + sum(maximum_voices[:p_ind])', 'new': '                        e.voice += sum(maximum_voices[:p_ind])'}]
+
+# changes made by sub-agents that were given only the property text (see /verif/seeded/<id>/): each must stay reported
+SEEDED = [
+    {'name': 'seeded change C15-r2', 'seed': 'C15-r2', 'expect': '|FLAT-all|'},
+    {'name': 'seeded change C15', 'seed': 'C15', 'expect': '|OFFSET-src|'},
+]
+MUTANTS += SEEDED
